@@ -62,6 +62,15 @@ def generated_programs(rng, n):
     from gen import families
     for i, src in enumerate(families.tour() + families.tour_vm_only()):
         out.append((f"tour{i}", b(src)))
+    # impl blocks: the whole decision table of template constraints (missing / surplus methods, parameter count, names
+    # and types, return types, modifiers, capabilities) and every subset of methods of the three-method template
+    from gen import faults
+    for i, case in enumerate(faults.template_cases(None, 0)):
+        out.append((f"impl{i}", b(case[0])))
+    from props.C14 import template_programs
+    for i, (mods, _) in enumerate(template_programs()):
+        if i % 4 == 0:
+            out.append((f"trio{i}", b(mods["main"])))
     return out
 
 
